@@ -861,3 +861,46 @@ Proof.
   split; rewrite forallb_forall; intros z Hz; apply in_map_iff in Hz as [py [<- Hin]]; destruct (H01 py Hin) as [[E|E] [E'|E']];
     rewrite ?E, ?E'; reflexivity.
 Qed.
+
+(* ------------------------------------------------------------------------------------------ *)
+(* Multilabel criteria as set relations between predicted and true label sets (per sample)     *)
+(* ------------------------------------------------------------------------------------------ *)
+Definition to_bits (py : Z * Z) : bool * bool := (fst py =? 1, snd py =? 1).
+Lemma forallb_map_in {X Y} (f : X -> bool) (g : Y -> bool) (h : X -> Y) l :
+  (forall x, In x l -> f x = g (h x)) -> forallb f l = forallb g (map h l).
+Proof.
+  induction l as [|x l IH]; intros H; [reflexivity|]. cbn [map forallb]. rewrite IH, H; [reflexivity|left; reflexivity|].
+  intros y Hy. apply H. right. exact Hy.
+Qed.
+Lemma existsb_map_in {X Y} (f : X -> bool) (g : Y -> bool) (h : X -> Y) l :
+  (forall x, In x l -> f x = g (h x)) -> existsb f l = existsb g (map h l).
+Proof.
+  induction l as [|x l IH]; intros H; [reflexivity|]. cbn [map existsb]. rewrite IH, H; [reflexivity|left; reflexivity|].
+  intros y Hy. apply H. right. exact Hy.
+Qed.
+Ltac bits01 H py := let Hp := fresh in let Hy := fresh in
+  destruct (H py) as [Hp Hy]; [assumption|]; destruct py as [p y]; unfold to_bits; cbn [fst snd] in *; destruct Hp, Hy; subst; reflexivity.
+(* on 0/1 rows the tensor expressions of _multilabel_update are the set relations of the docstring *)
+Theorem ml_row_criteria r : ok01 r ->
+  forallb (fun py => fst py =? snd py) r = ml_sample_ok ExactMatch (map to_bits r) /\
+  existsb (fun py => (fst py =? snd py) && (fst py =? 1)) r || forallb (fun py => (fst py =? 0) && (snd py =? 0)) r
+    = ml_sample_ok Overlap (map to_bits r) /\
+  forallb (fun py => 0 <=? fst py - snd py) r = ml_sample_ok Contain (map to_bits r) /\
+  forallb (fun py => fst py - snd py <=? 0) r = ml_sample_ok Belong (map to_bits r) /\
+  sumZ (map (fun py => b2z (fst py =? snd py)) r) = cnt (fun pt => Bool.eqb (fst pt) (snd pt)) (map to_bits r).
+Proof.
+  intros H. cbn [ml_sample_ok]. repeat split.
+  - apply forallb_map_in. intros py Hin. bits01 H py.
+  - f_equal; [apply existsb_map_in|apply forallb_map_in]; intros py Hin; bits01 H py.
+  - apply forallb_map_in. intros py Hin. bits01 H py.
+  - apply forallb_map_in. intros py Hin. bits01 H py.
+  - rewrite sumZ_b2z, cnt_map. apply cnt_ext_in. intros py Hin. bits01 H py.
+Qed.
+(* the two summands of the "overlap" count never both fire on one sample *)
+Theorem ml_overlap_exclusive r :
+  existsb (fun py : Z * Z => (fst py =? snd py) && (fst py =? 1)) r && forallb (fun py => (fst py =? 0) && (snd py =? 0)) r = false.
+Proof.
+  destruct (existsb _ r) eqn:E; [|reflexivity]. destruct (forallb _ r) eqn:F; [|reflexivity]. exfalso.
+  apply existsb_exists in E as [py [Hin Hpy]]. rewrite forallb_forall in F. specialize (F py Hin).
+  apply andb_prop in Hpy as [_ H1]. apply andb_prop in F as [H0 _]. apply Z.eqb_eq in H1. apply Z.eqb_eq in H0. lia.
+Qed.
